@@ -10,7 +10,7 @@ META = {
     "engine": "Cut",
     "technique": "TLA+ two-sided envelope (must-keep / may-remove / must-remove) as the reference; the parser's line/firstText/numTokenInLine/cutSpacesToken machine with cutSpaces transcribed action per branch and model-checked by TLC against the envelope for every piece sequence; the same sequences (and seeded longer ones) are rendered by the real BuildTemplate+Run in six formats and every output is judged by the TLA+ envelope in a TLC trace spec",
     "level": "model_checking",
-    "level_text": "A template is a sequence of pieces (text fragments incl. spaces, tabs, LF, CRLF, BOM, braces, '#', '%', '<b>'; shows of constants, {{ render }}, if/end, var, {%% %%}, comments incl. nested and multi-line, raw blocks with and without marker, a leading shebang). TLC explores the implementation-shaped cut machine for every sequence up to length 4 (quick) / 5 (thorough) over the class representatives, under both readings of the end-of-file trigger, checking model output in envelope, slice bounds of the cuts and agreement of the action-wise and functional forms; every balanced sequence is replayed through the real code (all in .txt; in the other five formats those of length<=3, thorough also length 4) plus seeded sequences up to length 8 over the whole catalogue, and TLC judges each real output against the envelope.",
+    "level_text": "A template is a sequence of pieces (text fragments incl. spaces, tabs, LF, CRLF, BOM, braces, '#', '%', '<b>'; shows of constants, {{ render }}, if/end, var, {%% %%}, comments incl. nested and multi-line, raw blocks with and without marker, a leading shebang). TLC explores the implementation-shaped cut machine for every sequence up to length 4 over 9 piece classes (quick) / length 5 over 7 and length 4 over 13 classes (thorough), under two transcriptions of the parser's line block (as written / as proposed), checking model output in envelope, slice bounds of the cuts and agreement of the action-wise and functional forms; every balanced sequence is replayed through the real code (all in .txt; in the other five formats those of length<=2 quick / <=3 thorough) plus seeded sequences up to length 8 over the whole catalogue, and TLC judges each real output against the envelope.",
     "level_note": "Trusted: TLC, the Json community module, the Go driver that only concatenates, builds, runs and logs. The envelope reads 'line' as physical line and classes a {{ render }} alone on its line with the statements (lenient readings, written next to the predicates). It does not demand that a content-free line IS removed (var/const declarations keep theirs today), so a statement kind that forgets cutSpacesToken shows up only as model drift. Statements whose output depends on evaluation (if false, for, else, macros, extends/import) are not generated; text is limited to the catalogue alphabet, so format-specific lexer contexts (attributes, script/style, Markdown code blocks beyond a leading tab) are barely exercised.",
     "design_ref": "7/C15",
 }
@@ -34,6 +34,7 @@ PROPOSED_KNOWN = [
 FAMS = ["cut"]
 QUICK_ALPHA = {"x", "sp", "nl", "cmt", "cmtml", "if", "end", "show7", "stmtsml"}
 THOROUGH_ALPHA = QUICK_ALPHA | {"var", "render", "rawnl", "shebang"}
+DEEP_ALPHA = QUICK_ALPHA - {"if", "end"}
 ALL_FMTS = ["txt", "html", "md", "js", "css", "json"]
 TEXT_NAMES = ["x", "sp", "tab", "nl", "spnl", "nlsp", "xnl", "crnl", "cr", "lb", "rb", "hash", "pct", "bom", "b"]
 SYNTAX_NAMES = ["show7", "shows", "render", "if", "end", "assign", "var", "stmts", "stmtsml", "cmt", "cmtn", "cmtml",
@@ -43,7 +44,7 @@ INVS = ["EnvelopeHead", "EnvelopeFix", "SliceHead", "SliceFix", "SameAsFunctiona
 
 def spaces(ctx):
     """(alphabet, max length) of the sequence spaces explored by TLC and replayed, per tier"""
-    return ctx.pick([(QUICK_ALPHA, 4)], [(QUICK_ALPHA, 5), (THOROUGH_ALPHA, 4)])
+    return ctx.pick([(QUICK_ALPHA, 4)], [(DEEP_ALPHA, 5), (THOROUGH_ALPHA, 4)])
 
 
 def run(ctx, only_case=None):
@@ -72,9 +73,8 @@ def run(ctx, only_case=None):
         mc = {"states": sum(m["states"] for m in mcs), "transitions": sum(m["transitions"] for m in mcs),
               "mc_wall_s": max(m["mc_wall_s"] for m in mcs), "mc_invariants": INVS, "model_counterexamples": cex,
               "bounds": "; ".join(m["bounds"] for m in mcs), "mc_runs": [{k: m[k] for k in ("states", "mc_wall_s", "bounds")} for m in mcs]}
-        if not ctx.quick:
-            mc["actions_never_taken"] = sorted({a for m in mcs for a in m["actions_never_taken"]} if all("actions_never_taken" in m for m in mcs) else [])
-            mc["actions_never_taken"] = [a for a in mc["actions_never_taken"] if all(a in m["actions_never_taken"] for m in mcs)]
+        if not ctx.quick:      # an action counts as never taken only if no run took it
+            mc["actions_never_taken"] = sorted(set.intersection(*[set(m["actions_never_taken"]) for m in mcs]))
     if mc:
         ctx.cov.update(mc)
     # ---- cases: every judgeable sequence exported by TLC x formats, plus seeded longer sequences
@@ -104,7 +104,7 @@ def run(ctx, only_case=None):
         exhaustive=True, samples=[sample(o) for o in rig.pick_samples([o for o in allobs if nontrivial(o)] or allobs, 4, ctx.seed)],
         judged_bad_first_pass=len(bads),
         # which transcription of the parser's line block IS the code under test (0 = it matches every judged output)
-        model_vs_code_mismatches={"head (as written at 6826cde)": stats["drift_head"], "fix (proposed repair)": stats["drift_fix"]},
+        model_vs_code_mismatches={"head (line block as written)": stats["drift_head"], "fix (line block as proposed)": stats["drift_fix"]},
     )
     variant = "Head" if stats["drift_head"] <= stats["drift_fix"] else "Fix"
     ctx.cov["model_variant_matching_code"] = variant.lower()
@@ -187,8 +187,8 @@ def assemble(ctx, catalogue, seqs):
     cases, n = [], 0
     for ns in seqs:
         for f in ALL_FMTS:
-            # every sequence in .txt; in the other five formats those of length <= 3 (thorough: also length 4 over the quick classes)
-            if f != "txt" and len(ns) > 3 and (ctx.quick or len(ns) > 4 or not set(ns) <= QUICK_ALPHA):
+            # every sequence in .txt; in the other five formats those of length <= 2 (quick) / <= 3 (thorough)
+            if f != "txt" and len(ns) > ctx.pick(2, 3):
                 continue
             if f in ("js", "css", "json") and "shows" in ns:
                 continue
@@ -196,7 +196,7 @@ def assemble(ctx, catalogue, seqs):
             cases.append({"id": n, "fmt": f, "names": ns})
     ctx.cov["sequences_exported_by_tlc"] = len(seqs)
     rng = random.Random(ctx.seed)
-    extra = ctx.pick(1500, 20000)
+    extra = ctx.pick(800, 10000)
     for k in range(extra):
         ln = rng.randint(3, 8)
         ns, depth = [], 0
@@ -234,7 +234,7 @@ def assemble(ctx, catalogue, seqs):
 
 def judge(ctx, step, observations, shards=None):
     """Trace_Cut over the observations, sharded over parallel TLC processes. Returns (bad records with obs, summed stats)."""
-    shards = shards or min(6, len(observations) // 4000 + 1)
+    shards = shards or min(6, len(observations) // 6000 + 1)
     size = (len(observations) + shards - 1) // shards or 1
     parts = [observations[i:i + size] for i in range(0, max(len(observations), 1), size)]
 
